@@ -95,7 +95,7 @@ func listItems(prop, tier string) []Item {
 func seqJobList(prop, tier string) []*SeqJob {
 	switch prop {
 	case "C01":
-		return append(c01SeqJobs(tier), metricsPerScopeSweep("C01", "size-sweep-counters-and-histograms-per-scope", tier, map[string]bool{"counter": true, "histogram": true}), bothReportersJob("C01", tier))
+		return append(c01SeqJobs(tier), metricsPerScopeSweep("C01", "size-sweep-counters-and-histograms-per-scope", tier, map[string]bool{"counter": true, "histogram": true}), bothReportersJob("C01", tier), c01PanicJob(tier))
 	case "C07":
 		return []*SeqJob{c07SeqJob(tier), scopesPerRegistrySweep(tier), bothReportersJob("C07", tier)}
 	case "C08":
